@@ -115,6 +115,8 @@ func manPageAllowList(repo string) (literals []string, patterns []string, err er
 
 func runC11(c *Ctx) {
 	p := c.P
+	shellQuoteRule(c, "R9")
+	everyValueRecorded(c, "R2")
 	rg := p.Fn("config", "readGitConfig")
 	if rg == nil {
 		c.Missing("R2", "config.readGitConfig", "function not found")
